@@ -175,7 +175,7 @@ def run(ctx):
             part["known_finding_reported_by_engine"] = PROPOSED_KNOWN
             continue
         ctx.violations.append(v)
-    part["rule"] = ("w: every table of 0..3 formats x stored value (empty, 1 byte, several) x configured format x writer behaviour, exhaustively; c: 1..16 goroutines "
+    part["rule"] = ("contexts: writer.Sink / FileSink calls are also made with a live cancellable, an already cancelled, a past-deadline and a custom done context (the model ignores the context), ChannelSink scenarios include those as ready context arms; w: every table of 0..3 formats x stored value (empty, 1 byte, several) x configured format x writer behaviour, exhaustively; c: 1..16 goroutines "
                     "each making 1..6 Process calls on one sink, the destination records bytes one at a time and flags overlapping Write calls; f: FileSink per "
                     "destination kind x format x table; h: ChannelSink timed scenarios, arms within the slack of the earliest are both accepted (counted "
                     "':ambiguous' in stats) and competing arms are otherwise seconds apart. distinct_nontrivial = distinct cases in which a Write call was made / "
